@@ -1,8 +1,8 @@
 import CollectionsC.Proofs.StaticPool
-import CollectionsC.Generated.Funcs
+import CollectionsC.Generated.FuncsSpool
 /-! # C12 — translation validation of the static-pool model
 
-`Generated/Funcs.lean` is re-translated from the current text of `src/memory/cc_static_pool.c` on
+`Generated/FuncsSpool.lean` is re-translated from the current text of `src/memory/cc_static_pool.c` on
 every build (`tools/gen_funcs.py`): `struct cc_static_pool_s` as the record `GenF.cc_static_pool_s`
 (`size`, the four byte pointers `block`, `high_ptr`, `low_ptr`, `free_ptr` as `GenF.Ptr = Option Nat`
 — `none` is NULL, `some a` the address `a` — and the memory they point into as the ghost field `bytes`,
@@ -65,7 +65,7 @@ theorem memset_pad (b off n : Nat) (bytes : List Nat) :
 theorem spool_new_agrees (size offset d : Nat) (pa : GenF.Ptr) (hpa : pa ≠ none) (u : GenF.cc_static_pool_s)
     (bytes : List Nat) (hu : u.bytes = List.replicate (d + offset) 0 ++ bytes) :
     GenF.cc_static_pool_new size offset (some d) pa u =
-      (Stat.ok.code, some (ofCoreAt (d + offset) (SPoolCore.new size bytes)), false) := by
+      (Stat.ok.code, some { ofCoreAt (d + offset) (SPoolCore.new size bytes) with id_ := u.id_ }, false) := by
   have hok : Stat.ok.code = 0 := by decide
   unfold GenF.cc_static_pool_new ofCoreAt SPoolCore.new
   simp [hpa, hu, hok, GenF.padd, GenF.paddOk]
